@@ -142,6 +142,18 @@ pub fn run_jobs(ctx: &mut Ctx, op: &'static str, jobs: Vec<Job>) -> Vec<Done> {
                 clause: "key provider called more than once or before it signalled readiness".into(),
             });
         }
+        if let Some(got) = &v.reqs_mismatch {
+            ctx.rep.fail(Failure {
+                kind: "ORACLE",
+                op: op.to_string(),
+                class: "c05-container".into(),
+                input: format!("{:?}", job.case.req_ops),
+                imp: got.clone(),
+                model: String::new(),
+                spec: format!("{:?}", (&job.case.always, &job.case.ifreq, &job.case.prefixes)),
+                clause: "C05: after this add/remove history the growable requirements container does not declare the names it should".into(),
+            });
+        }
         if v.class.starts_with("ERR") && !v.err_is_signature_error {
             ctx.rep.fail(Failure {
                 kind: "ORACLE",
@@ -332,6 +344,32 @@ pub fn c01(ctx: &mut Ctx) {
             let _ = s2;
             jobs.push(job(c, Expect::Refuse(None), "c01-time", must));
         }
+        // wire-level edits of URI and body (header carrier: the whole URI is request data): the verdict must
+        // be exactly "presented signature = signature a conforming signer computes for the request as it now is"
+        if l.carrier == Carrier::Header {
+            for _ in 0..ctx.n(6, 24) {
+                let mut c = s.case.clone();
+                let mut u = c.uri.clone().into_bytes();
+                let start = if c.uri.starts_with("https://") { c.uri[8..].find('/').map(|p| p + 8).unwrap_or(0) } else { 0 };
+                match rng.below(4) {
+                    0 => { let p = start + rng.below(u.len() - start + 1); u.insert(p, *rng.pick(b"=&+%2F;/.aA~:@")); }
+                    1 => { if u.len() > start + 1 { let p = start + 1 + rng.below(u.len() - start - 1); u.remove(p); } }
+                    2 => { if u.len() > start + 1 { let p = start + 1 + rng.below(u.len() - start - 1); u[p] = *rng.pick(b"=&+%2Ff;/.aA~"); } }
+                    _ => { if !c.body.is_empty() { let p = rng.below(c.body.len()); c.body[p] = *rng.pick(b"=&+%2Ffa"); } else { c.body.push(b'='); } }
+                }
+                c.uri = String::from_utf8_lossy(&u).to_string();
+                if c.uri == s.case.uri && c.body == s.case.body {
+                    continue;
+                }
+                let expect = match wire_expected_signature(&s, &l, &c) {
+                    Err("not-admitted") => continue,
+                    Err(kind) => Expect::Refuse(Some(kind)),
+                    Ok(sig) => if sig == s.signature { Expect::Accept } else { Expect::Refuse(Some("SignatureDoesNotMatch")) },
+                };
+                ctx.rep.count(match &expect { Expect::Accept => "gen.wire_edit_equivalent", _ => "gen.wire_edit_different" });
+                jobs.push(job(c, expect, "c01-wire-edit", "C01: after an edit of the URI or body the request must be accepted iff its presented signature is still the signature of the request as received"));
+            }
+        }
         // scope fields: region of the server differs from the signed one
         {
             let mut c = s.case.clone();
@@ -425,6 +463,7 @@ pub fn simple_logical(carrier: Carrier, time_ns: i128) -> Logical {
         s3: false,
         fold: false,
         dup_date: None,
+        scope_date_override: None,
     }
 }
 
@@ -629,6 +668,46 @@ pub fn c03(ctx: &mut Ctx) {
             j.expect_calls = Some(0);
             jobs.push(j);
         }
+        // near-miss scope dates, signed *correctly over the near-miss scope* with the key of the true date:
+        // a lax date comparison would accept these
+        {
+            let d = &date;
+            let forms = vec![
+                format!("{} {} {}", &d[..4], &d[4..6], &d[6..]), format!(" {}", d), format!("{} ", d), format!("{}-{}-{}", &d[..4], &d[4..6], &d[6..]),
+                format!("+{}", d), format!("0{}", d), format!("{}T", d), format!("{}{}", &d[..6], d[6..].trim_start_matches('0')),
+                format!("{} {}", &d[..4], &d[4..]), d.replace('0', "O"), format!("{}/", d),
+            ];
+            let nforms = if ctx.thorough { forms.len() } else { 4 };
+            for f in forms.into_iter().take(nforms + (i % 3)) {
+                if f == *d {
+                    continue;
+                }
+                let mut ln = l.clone();
+                ln.scope_date_override = Some(f.clone());
+                ln.carrier = Carrier::Header;
+                let sn = sign_and_spell(&ln, &mut rng, &Spelling::plain(), now);
+                let arity_ok = sn.credential.split('/').count() == 5;
+                let mut j = job(sn.case, Expect::Refuse(Some(if arity_ok { "SignatureDoesNotMatch" } else { "IncompleteSignature" })), "c03-nearmiss-signed", "C03: a scope whose date is not exactly the YYYYMMDD of the request's UTC date was not refused before key lookup, although signed consistently over that scope");
+                j.expect_calls = Some(0);
+                jobs.push(j);
+            }
+            // near-miss region/service, signed over the near-miss scope
+            for (r2, s2) in [(region.to_uppercase(), service.clone()), (format!("{} ", region), service.clone()), (region.clone(), format!(" {}", service)), (region.clone(), service.to_uppercase())] {
+                if r2 == region && s2 == service {
+                    continue;
+                }
+                let mut ln = l.clone();
+                ln.region = r2;
+                ln.service = s2;
+                ln.carrier = Carrier::Header;
+                let mut sn = sign_and_spell(&ln, &mut rng, &Spelling::plain(), now);
+                sn.case.region = region.clone();
+                sn.case.service = service.clone();
+                let mut j = job(sn.case, Expect::Refuse(Some("SignatureDoesNotMatch")), "c03-nearmiss-signed", "C03: a near-miss region/service, signed consistently over the near-miss scope, was not refused before key lookup");
+                j.expect_calls = Some(0);
+                jobs.push(j);
+            }
+        }
         // signed with the local-zone date instead of the UTC date, when they differ
         if local_date != date {
             ctx.rep.count("gen.local_date_differs");
@@ -702,9 +781,9 @@ pub fn c05(ctx: &mut Ctx) {
         let mut l = random_logical(&mut rng);
         l.use_date_header = false;
         let mix = |rng: &mut Rng, s: &str| -> String { s.chars().map(|c| if rng.chance(1, 2) { c.to_ascii_uppercase() } else { c.to_ascii_lowercase() }).collect() };
-        let mut always = Vec::new();
-        let mut ifreq = Vec::new();
-        let mut prefixes = Vec::new();
+        let mut always: Vec<String> = Vec::new();
+        let mut ifreq: Vec<String> = Vec::new();
+        let mut prefixes: Vec<String> = Vec::new();
         for _ in 0..rng.below(3) {
             let pick: &str = *rng.pick(&pool);
             let n = mix(&mut rng, pick);
@@ -741,12 +820,68 @@ pub fn c05(ctx: &mut Ctx) {
                 l.signed.push("content-type".into());
             }
         }
+        // a third of the cases build the growable container through a random add/remove history
+        let mut ops: Vec<(char, String)> = Vec::new();
+        if i % 3 == 1 {
+            let (mut a2, mut i2, mut p2): (Vec<String>, Vec<String>, Vec<String>) = (vec![], vec![], vec![]);
+            let vec_add = |l: &mut Vec<String>, h: &str| {
+                if !l.iter().any(|x| *x == h.to_ascii_lowercase()) {
+                    l.push(h.to_string());
+                }
+            };
+            let vec_remove = |l: &mut Vec<String>, h: &str| l.retain(|x| x.to_ascii_lowercase() != h.to_ascii_lowercase());
+            for _ in 0..rng.below(9) {
+                let exact_lower = rng.chance(1, 3);
+                let pick: &str = if rng.chance(1, 4) { *rng.pick(&prefixes_pool) } else { *rng.pick(&pool) };
+                let name = if exact_lower { pick.to_ascii_lowercase() } else { mix(&mut rng, pick) };
+                let code = *rng.pick(&['A', 'A', 'I', 'I', 'P', 'a', 'i', 'p']);
+                match code {
+                    'A' => vec_add(&mut a2, &name),
+                    'I' => vec_add(&mut i2, &name),
+                    'P' => vec_add(&mut p2, &name),
+                    'a' => vec_remove(&mut a2, &name),
+                    'i' => vec_remove(&mut i2, &name),
+                    _ => vec_remove(&mut p2, &name),
+                }
+                ops.push((code, name));
+            }
+            always = a2;
+            ifreq = i2;
+            prefixes = p2;
+            if comply {
+                for a in &always {
+                    let a = a.to_ascii_lowercase();
+                    if !l.signed.contains(&a) {
+                        l.signed.push(a);
+                    }
+                }
+                for (n, _) in l.headers.clone() {
+                    let nl = n.to_ascii_lowercase();
+                    let wanted = ifreq.iter().any(|c| c.to_ascii_lowercase() == nl) || prefixes.iter().any(|p| nl.starts_with(&p.to_ascii_lowercase()));
+                    if wanted && !l.signed.contains(&nl) {
+                        l.signed.push(nl);
+                    }
+                }
+            }
+            // the model's container semantics against the reference used above
+            let line = format!("REQOPS {}", if ops.is_empty() { ".".to_string() } else { ops.iter().map(|(c, n)| format!("{}{}", c, hx(n.as_bytes()))).collect::<Vec<_>>().join(",") });
+            let model = ctx.drv.ask(&line);
+            let want = format!("{} {} {}", hx_list(&always), hx_list(&ifreq), hx_list(&prefixes));
+            ctx.rep.count("evaluations");
+            ctx.rep.count("evaluations.REQOPS");
+            if model != want {
+                ctx.rep.fail(Failure { kind: "INTERNAL", op: "REQOPS".into(), class: "c05-container".into(), input: line, imp: String::new(), model, spec: want, clause: "model and harness reference disagree on the requirements container".into() });
+            }
+        }
         let sp = if i % 4 < 2 { Spelling::plain() } else { Spelling::random(&mut rng) };
         let mut s = sign_and_spell(&l, &mut rng, &sp, now);
+        if !ops.is_empty() {
+            s.case.req_ops = ops.clone();
+        }
         s.case.always = always.clone();
         s.case.ifreq = ifreq.clone();
         s.case.prefixes = prefixes.clone();
-        s.case.vec_reqs = rng.chance(1, 2);
+        s.case.vec_reqs = rng.chance(1, 2) || !ops.is_empty();
         let ok = required_ok(&always, &ifreq, &prefixes, &s.case.headers, &s.signed_names);
         ctx.rep.count(if ok { "gen.requirements_met" } else { "gen.requirements_violated" });
         let mut j = job(
@@ -760,6 +895,7 @@ pub fn c05(ctx: &mut Ctx) {
         // the same request through the other requirements implementation must give the same verdict
         let mut c2 = s.case.clone();
         c2.vec_reqs = !c2.vec_reqs;
+        c2.req_ops.clear();
         let mut j2 = job(c2, if ok { Expect::Accept } else { Expect::Refuse(Some("SignatureDoesNotMatch")) }, if ok { "c05-met" } else { "c05-violated" }, "C05: both requirement containers must agree");
         j2.expect_calls = Some(if ok { 1 } else { 0 });
         jobs.push(j2);
